@@ -71,6 +71,9 @@ func (s *levelHandler) initTables(tables []*table.Table) {
 			return y.CompareKeys(s.tables[i].Smallest(), s.tables[j].Smallest()) < 0
 		})
 	}
+	if y.VerifEnabled {
+		y.VerifEvent("level.tables", s.level, "init", verifTableIDs(s.tables))
+	}
 }
 
 // deleteTables remove tables idx0, ..., idx1-1.
@@ -93,6 +96,9 @@ func (s *levelHandler) deleteTables(toDel []*table.Table) error {
 		s.subtractSize(t)
 	}
 	s.tables = newTables
+	if y.VerifEnabled {
+		y.VerifEvent("level.tables", s.level, "delete", verifTableIDs(s.tables))
+	}
 
 	s.Unlock() // Unlock s _before_ we DecrRef our tables, which can be slow.
 
@@ -133,6 +139,9 @@ func (s *levelHandler) replaceTables(toDel, toAdd []*table.Table) error {
 	sort.Slice(s.tables, func(i, j int) bool {
 		return y.CompareKeys(s.tables[i].Smallest(), s.tables[j].Smallest()) < 0
 	})
+	if y.VerifEnabled {
+		y.VerifEvent("level.tables", s.level, "replace", verifTableIDs(s.tables))
+	}
 	s.Unlock() // s.Unlock before we DecrRef tables -- that can be slow.
 	return decrRefs(toDel)
 }
@@ -193,6 +202,9 @@ func (s *levelHandler) tryAddLevel0Table(t *table.Table) bool {
 	s.tables = append(s.tables, t)
 	t.IncrRef()
 	s.addSize(t)
+	if y.VerifEnabled {
+		y.VerifEvent("level.tables", s.level, "addL0", verifTableIDs(s.tables))
+	}
 
 	return true
 }
